@@ -33,7 +33,7 @@ pub fn spec() -> PropSpec<Case> {
     id: "C09",
     strategy: case_strategy,
     check,
-    cases: |tier| tier.pick(4_000, 80_000),
+    cases: |tier| tier.pick(30_000, 600_000),
     rule: "generated packages (1-2 packages of 1-4 modules, up to 10 / 16 declarations of every kind - class, interface, type alias, enum, function, variable, namespace - exported or private, with random reference chains placed in signature or implementation positions, across modules through named / type-only / namespace imports and import types, named / star / namespace / type re-exports, default export, one or two entrypoints), analysed as registry packages or workspace members; plus every fast-check package of the spec corpus; non-trivial = fast check produced output and the package has a cross-module reference or a signature reference chain of length >= 2; distinct = distinct case JSON",
     assumptions: &[
       "an identifier the resolver leaves unbound in the emitted module is a violation only if that name was bound at module level in the original module",
